@@ -16,6 +16,7 @@ fn strategy(kind: &str, rng: &mut Rng) -> Box<dyn Strategy> {
         "sticky" => Box::new(RandomWalk { rng: rng.fork(), stay: 85 }),
         "straggler" => Box::new(Straggler::new(rng.fork(), 2, 250)),
         "slowdb" => Box::new(Straggler::slow_db(rng.fork(), 3, 300)),
+        "slowwriter" => Box::new(Straggler::slow_writer(rng.fork(), 4, 200)),
         _ => Box::new(RandomWalk { rng: rng.fork(), stay: 30 }),
     }
 }
